@@ -82,6 +82,11 @@ theorem edgeToVertices_bridge (S : Surf) (a b : V2Cn) (e : Nat) :
   unfold Mouette.Generated.C01Acc.edgeToVertices Mouette.Surface.edgeToVertices
   cases S.edges[e]? <;> rfl
 
+theorem cornerToFace_bridge (S : Surf) (a b : V2Cn) (c : Nat) :
+    Mouette.Generated.C01Acc.cornerToFace S a b c = Mouette.Surface.cornerToFace S c := by
+  unfold Mouette.Generated.C01Acc.cornerToFace Mouette.Surface.cornerToFace
+  cases S.fc[c]? <;> rfl
+
 /-- the two ring accessors read the tables `_sort_vertex_neighborhoods` leaves: when these hold the model's rings, so do they -/
 theorem vertexToCorners_bridge (S : Surf) (a b : V2Cn) (ha : a = (List.range S.nv).map (Mouette.Surface.vertexToCorners S)) (v : Nat)
     (hv : v < S.nv) : Mouette.Generated.C01Acc.vertexToCorners S a b v = some (Mouette.Surface.vertexToCorners S v) := by
